@@ -271,9 +271,14 @@ def replay_stmt(chk, cases, rng):
             d = _dialect(dn, label_length=L)
             for attempt in (0, 1):
                 stmt, elems, _ = build_stmt(case["items"])
-                c1 = stmt.compile(dialect=d)
-                got = names_of(c1, elems, kinds)
                 n += 1
+                try:
+                    c1 = stmt.compile(dialect=d)
+                except sa.exc.CompileError as ex:
+                    chk.violation(dict(sig, action="compile", dialect=dn, error="CompileError"), "%s label_length=%d items %s does not compile: %s"
+                                  % (dn, L, [(it["k"], "".join(it["c"])) for it in case["items"]], ex), dict(case=case, dialect=dn))
+                    break
+                got = names_of(c1, elems, kinds)
                 if got != want:
                     diff = {str(k): (got.get(k), want.get(k)) for k in set(got) | set(want) if got.get(k) != want.get(k)}
                     chk.violation(dict(sig, action="names", dialect=dn), "%s label_length=%d items %s: names (got, specification) differ: %r"
@@ -298,10 +303,14 @@ def replay_stmt(chk, cases, rng):
                 conn.exec_driver_sql("CREATE TABLE tt (%s)" % ", ".join("%s INTEGER" % c for c in COLS))
                 conn.exec_driver_sql("INSERT INTO tt VALUES (5, 5, 5, 5)")
         stmt, elems, _ = build_stmt(case["items"])
-        with eng.connect() as conn:
-            res = conn.execute(stmt)
-            keys = list(res.keys())
-            rows = res.all()
+        try:
+            with eng.connect() as conn:
+                res = conn.execute(stmt)
+                keys = list(res.keys())
+                rows = res.all()
+        except sa.exc.SQLAlchemyError as ex:
+            chk.violation(dict(sig, action="execute", error=type(ex).__name__), "SQLite execution fails: %s" % str(ex).splitlines()[0][:200], dict(case=case))
+            continue
         nexec += 1
         labels = [want[(pos, "label")] for pos, k in enumerate(kinds, 1) if k in ("col", "acol", "expr")]
         if labels and keys != labels:
@@ -341,7 +350,13 @@ def record_traces(chk, rng, count, path):
                     cols.append(sa.func.max(c).label(None))
             where = [rng.choice(list(rng.choice(froms).c)) == rng.randint(1, 99) for _ in range(rng.randint(0, 5))]
             stmt = sa.select(*cols).where(*where).set_label_style(rng.choice([sa.LABEL_STYLE_TABLENAME_PLUS_COL, sa.LABEL_STYLE_DISAMBIGUATE_ONLY]))
-            comp = stmt.compile(dialect=d)
+            try:
+                comp = stmt.compile(dialect=d)
+            except sa.exc.CompileError as ex:
+                # generated names that collide are refused by the compiler: still two elements under one name
+                chk.violation(dict(spec="LexersTrunc", mode="trace", action="compile", error="CompileError", dialect=dn, L=effL),
+                              "a statement of generated names only does not compile with label_length=%s on %s: %s" % (L, dn, ex), dict(error=str(ex)))
+                continue
             names = []
             seen_cols = {}
             for j, r in enumerate(comp._result_columns):
